@@ -165,6 +165,14 @@ class OutgoingRIB(Cache):
         for route in self.cached_routes(list(self.families)):
             self.add_to_rib(route, True)
 
+        if not self.cache:
+            # nothing is remembered between sessions (adj-rib-out off): the configured routes
+            # have to be queued again, except those a watchdog currently holds back
+            parked = {index for state in self._watchdog.values() for index in state.get('-', {})}
+            for route in new:
+                if route.index() not in parked:
+                    self.add_to_rib(route, True)
+
         for index in list(indexed):
             self.del_from_rib(indexed.pop(index))
 
